@@ -105,4 +105,5 @@ def run(tier):
                                                       for e in tr["ev"][:14]]})
     rep.assumptions = ["bitwise reproducibility of the platform across processes (checked: the reference tags every sweep)",
                        "semi-async with shuffling is excluded (PRNG key is not checkpointed; only the error bound is promised)"]
+    rep.extra["machinery_retries"] = list(ckptlib.RETRIES)
     return rep.finish()
